@@ -9,6 +9,7 @@ open Py Xs.Bind Xs.Bind.F1 Xs.Bind.FN
 
 /-- what `bind_var` does to the param of its own field -/
 def accVar (cur : Option Val) (var : XmlVar) (y : Val) : Option Val :=
+  if !var.init then cur else
   if var.listElement then
     (match cur with
      | some (.list items) => some (.list (items ++ [y]))
@@ -18,13 +19,17 @@ def accVar (cur : Option Val) (var : XmlVar) (y : Val) : Option Val :=
      | none => some y
      | some c => some c)
 
-theorem get_bindVar {P : Params} {var : XmlVar} (y : Val) (hi : var.init = true) (k : Str) :
+theorem get_bindVar {P : Params} {var : XmlVar} (y : Val) (k : Str) :
     (bindVar P var y).2.get k = if k = var.name then accVar (P.get k) var y else P.get k := by
+  by_cases hi : var.init = true
+  case neg =>
+    have hi' : var.init = false := by simpa using hi
+    simp [bindVar, accVar, hi']
   by_cases hk : k = var.name
   · subst hk
     simp only [if_true]
     unfold bindVar accVar
-    simp only [hi, if_true]
+    simp only [hi, if_true, Bool.not_true, Bool.false_eq_true, if_false]
     by_cases hl : var.listElement = true
     · simp only [hl, if_true]
       split <;> simp_all [Params.get_set_self]
@@ -42,17 +47,16 @@ theorem get_bindVar {P : Params} {var : XmlVar} (y : Val) (hi : var.init = true)
       · rfl
 
 theorem get_bindEntries (k : Str) : ∀ (E : List (XmlVar × Val)) (P : Params),
-    (∀ en ∈ E, en.1.init = true) →
     (bindEntries P E).get k =
       (E.filter (fun en => en.1.name = k)).foldl (fun cur en => accVar cur en.1 en.2) (P.get k) := by
   intro E
   induction E with
-  | nil => intro P _; rfl
+  | nil => intro P; rfl
   | cons en r ih =>
-    intro P h
+    intro P
     simp only [bindEntries, List.foldl_cons]
     show Params.get (bindEntries _ r) k = _
-    rw [ih _ (fun en' he => h en' (by simp [he])), get_bindVar en.2 (h en (by simp)) k]
+    rw [ih, get_bindVar en.2 k]
     by_cases hk : en.1.name = k
     · simp [List.filter_cons, hk]
     · have hk' : ¬ k = en.1.name := fun h' => hk h'.symm
@@ -60,21 +64,23 @@ theorem get_bindEntries (k : Str) : ∀ (E : List (XmlVar × Val)) (P : Params),
 
 /-- the param a var ends up with, from its items in document order -/
 def finalParam (var : XmlVar) (ys : List Val) : Option Val :=
+  if !var.init then none else
   if var.listElement then (if ys.isEmpty then none else some (.list ys)) else ys.head?
 
-theorem accVar_list_some {var : XmlVar} (hl : var.listElement = true) (prev : List Val) (y : Val) :
-    accVar (some (.list prev)) var y = some (.list (prev ++ [y])) := by simp [accVar, hl]
+theorem accVar_list_some {var : XmlVar} (hi : var.init = true) (hl : var.listElement = true)
+    (prev : List Val) (y : Val) :
+    accVar (some (.list prev)) var y = some (.list (prev ++ [y])) := by simp [accVar, hl, hi]
 
-theorem accVar_list_none {var : XmlVar} (hl : var.listElement = true) (y : Val) :
-    accVar none var y = some (.list [y]) := by simp [accVar, hl]
+theorem accVar_list_none {var : XmlVar} (hi : var.init = true) (hl : var.listElement = true) (y : Val) :
+    accVar none var y = some (.list [y]) := by simp [accVar, hl, hi]
 
-theorem accVar_scalar_some {var : XmlVar} (hl : var.listElement = false) (c y : Val) :
-    accVar (some c) var y = some c := by simp [accVar, hl]
+theorem accVar_scalar_some {var : XmlVar} (hi : var.init = true) (hl : var.listElement = false)
+    (c y : Val) : accVar (some c) var y = some c := by simp [accVar, hl, hi]
 
-theorem accVar_scalar_none {var : XmlVar} (hl : var.listElement = false) (y : Val) :
-    accVar none var y = some y := by simp [accVar, hl]
+theorem accVar_scalar_none {var : XmlVar} (hi : var.init = true) (hl : var.listElement = false)
+    (y : Val) : accVar none var y = some y := by simp [accVar, hl, hi]
 
-theorem foldl_accVar_list {var : XmlVar} (hl : var.listElement = true) :
+theorem foldl_accVar_list {var : XmlVar} (hi : var.init = true) (hl : var.listElement = true) :
     ∀ (ys : List Val) (prev : List Val),
     (ys.map fun y => (var, y)).foldl (fun cur en => accVar cur en.1 en.2) (some (.list prev)) =
       some (.list (prev ++ ys)) := by
@@ -83,31 +89,47 @@ theorem foldl_accVar_list {var : XmlVar} (hl : var.listElement = true) :
   | nil => intro prev; simp
   | cons y t ih =>
     intro prev
-    simp only [List.map_cons, List.foldl_cons, accVar_list_some hl]
+    simp only [List.map_cons, List.foldl_cons, accVar_list_some hi hl]
     rw [ih]; simp
 
-theorem foldl_accVar_scalar {var : XmlVar} (hl : var.listElement = false) (c : Val) :
-    ∀ (ys : List Val),
+theorem foldl_accVar_scalar {var : XmlVar} (hi : var.init = true) (hl : var.listElement = false)
+    (c : Val) : ∀ (ys : List Val),
     (ys.map fun y => (var, y)).foldl (fun cur en => accVar cur en.1 en.2) (some c) = some c := by
   intro ys
   induction ys with
   | nil => rfl
   | cons y t ih =>
-    simp only [List.map_cons, List.foldl_cons, accVar_scalar_some hl]
+    simp only [List.map_cons, List.foldl_cons, accVar_scalar_some hi hl]
     exact ih
+
+theorem foldl_accVar_fixed {var : XmlVar} (hi : var.init = false) (cur : Option Val) :
+    ∀ (ys : List Val),
+    (ys.map fun y => (var, y)).foldl (fun cur en => accVar cur en.1 en.2) cur = cur := by
+  intro ys
+  induction ys with
+  | nil => rfl
+  | cons y t ih =>
+    simp only [List.map_cons, List.foldl_cons]
+    have : accVar cur var y = cur := by simp [accVar, hi]
+    rw [this]; exact ih
 
 theorem foldl_accVar (var : XmlVar) (ys : List Val) :
     (ys.map fun y => (var, y)).foldl (fun cur en => accVar cur en.1 en.2) none = finalParam var ys := by
+  by_cases hi : var.init = true
+  case neg =>
+    have hi' : var.init = false := by simpa using hi
+    rw [foldl_accVar_fixed hi']; simp [finalParam, hi']
   cases ys with
   | nil => simp [finalParam]
   | cons y t =>
     by_cases hl : var.listElement = true
-    · simp only [List.map_cons, List.foldl_cons, accVar_list_none hl, finalParam, hl, if_true]
-      rw [foldl_accVar_list hl]; simp
+    · simp only [List.map_cons, List.foldl_cons, accVar_list_none hi hl, finalParam, hl, if_true, hi,
+        Bool.not_true, Bool.false_eq_true, if_false]
+      rw [foldl_accVar_list hi hl]; simp
     · have hl' : var.listElement = false := by simpa using hl
-      simp only [List.map_cons, List.foldl_cons, accVar_scalar_none hl', finalParam, hl',
-        Bool.false_eq_true, if_false]
-      rw [foldl_accVar_scalar hl']; simp
+      simp only [List.map_cons, List.foldl_cons, accVar_scalar_none hi hl', finalParam, hl',
+        Bool.false_eq_true, if_false, hi, Bool.not_true]
+      rw [foldl_accVar_scalar hi hl']; simp
 
 /-! ### block-wise entries (no `sequence` groups) -/
 
